@@ -1,5 +1,79 @@
 import GnpyModel.Scalar
-/- model file Py (see DESIGN.md §2) -/
-namespace Gnpy
+/-
+Python list / integer semantics used by the discrete models (DESIGN.md §3): slices with negative bounds,
+indexing with negative wrap and IndexError, `list.index` (first occurrence, ValueError), `[x] * n`,
+`range(a, b)`, slice assignment, `//` (floor), `int(x / y)` (truncation toward zero), `ceil(x / y)`,
+stable `sorted(key=…)` (insertion sort).  Core Lean only.
+-/
+namespace Gnpy.Py
 
-end Gnpy
+/-- clamp of a slice bound against the list length (CPython `PySlice_AdjustIndices`, step 1) -/
+def sliceBound (len : Nat) (i : Int) : Nat :=
+  if i < 0 then (if i + (len : Int) < 0 then 0 else (i + (len : Int)).toNat)
+  else (if i > (len : Int) then len else i.toNat)
+
+/-- `l[i:j]` -/
+def slice {α : Type} (l : List α) (i j : Int) : List α :=
+  (l.drop (sliceBound l.length i)).take (sliceBound l.length j - sliceBound l.length i)
+
+/-- `l[i]`; `none` is IndexError -/
+def index? {α : Type} (l : List α) (i : Int) : Option α :=
+  if i < 0 then (if i + (l.length : Int) < 0 then none else l[(i + (l.length : Int)).toNat]?)
+  else l[i.toNat]?
+
+/-- `l.index(x)`; `none` is ValueError -/
+def indexOf? {α : Type} [DecidableEq α] (x : α) : List α → Option Nat
+  | [] => none
+  | y :: ys => if y = x then some 0 else (indexOf? x ys).map (· + 1)
+
+/-- `[x] * n` (empty for n ≤ 0) -/
+def rep {α : Type} (n : Int) (x : α) : List α := List.replicate n.toNat x
+
+/-- `list(range(a, b))` -/
+def intRange (a b : Int) : List Int := (List.range (b - a).toNat).map (fun (k : Nat) => a + (k : Int))
+
+/-- `l[i:j] = v` (step 1): the slice is replaced by `v`, whatever the length of `v` -/
+def sliceAssign {α : Type} (l : List α) (i j : Int) (v : List α) : List α :=
+  let a := sliceBound l.length i
+  let b := max a (sliceBound l.length j)
+  l.take a ++ v ++ l.drop b
+
+/-- `a // b` -/
+def floorDiv (a b : Int) : Int := Int.fdiv a b
+/-- `int(a / b)` for exact operands: truncation toward zero -/
+def truncDiv (a b : Int) : Int := Int.tdiv a b
+/-- `ceil(a / b)` for exact operands -/
+def ceilDiv (a b : Int) : Int := - Int.fdiv (-a) b
+
+/-- insertion of `x` before the first element `y` with `le x y` (keeps equal keys in input order) -/
+def orderedInsert {α : Type} (le : α → α → Bool) (x : α) : List α → List α
+  | [] => [x]
+  | y :: ys => if le x y then x :: y :: ys else y :: orderedInsert le x ys
+
+/-- `sorted(l, key=…)` with `le a b := key a ≤ key b`: stable -/
+def sorted {α : Type} (le : α → α → Bool) : List α → List α
+  | [] => []
+  | x :: xs => orderedInsert le x (sorted le xs)
+
+/-- `enumerate(l)` -/
+def enumerate {α : Type} (l : List α) : List (Nat × α) := (l.zipIdx).map (fun p => (p.2, p.1))
+
+/-- filter with a predicate that may raise -/
+def filterE {α ε : Type} (p : α → Except ε Bool) : List α → Except ε (List α)
+  | [] => pure []
+  | x :: xs => do
+    let b ← p x
+    let r ← filterE p xs
+    pure (if b then x :: r else r)
+
+def sumInt (l : List Int) : Int := l.foldr (· + ·) 0
+
+/-- `[f(x) for x in l]` where `f` may raise: the first exception wins -/
+def mapE {α β ε : Type} (f : α → Except ε β) : List α → Except ε (List β)
+  | [] => pure []
+  | x :: xs => do
+    let y ← f x
+    let ys ← mapE f xs
+    pure (y :: ys)
+
+end Gnpy.Py
